@@ -82,7 +82,7 @@ def run(res, prop, propfile, corpus, *, entry="VT", use_ctx=False, spec=True, al
                            "what": "the emitted file is not the generated source: written over a tree that already holds outputs (every second "
                                    "output absent, the others present in a longer stale version), the file differs from the one generated from scratch",
                            "history": ["govalid ./... on the sources below", "remove every second *_validator.go; append a stale tail to the others",
-                                       "govalid <packages>", "the same with the two halves exchanged", "compare with the files of the first run"],
+                                       "govalid <packages>", "compare with the files of the first run"],
                            "source": {f: open(os.path.join(src_dir, f)).read()[:3000] for f in sorted(os.listdir(src_dir))
                                       if f.endswith(".go") and not f.endswith("_validator.go")},
                            "from_scratch": (a or b"<missing>").decode(errors="replace")[:3000],
